@@ -12,6 +12,14 @@ KNOWN_TAGS = {"f8": "not_over_and_without_native_negation",
               "f15": "not_over_group_with_or_memberwise"}
 
 
+def penv(softptr):
+    """the soft-delete model of a harness process: value-typed or pointer-typed deleted-at field"""
+    env = dict(lib.GOENV)
+    if softptr:
+        env["VERIF_SOFTPTR"] = "1"
+    return env
+
+
 def carry(r):
     return ("T", r["soft"]) if r["ev"] == "T" else None
 
@@ -30,7 +38,7 @@ def case_of(rows, i):
         if rows[j]["ev"] == "T" and rows[j]["soft"] == e["soft"]:
             tbl = rows[j]["table"]
             break
-    return {"soft": e["soft"], "table": tbl, "rchain": e["rchain"], "rfin": e["rfin"]}
+    return {"soft": e["soft"], "table": tbl, "rchain": e["rchain"], "rfin": e["rfin"], "softptr": e.get("softptr", False)}
 
 
 def failing(prop, b):
@@ -62,7 +70,7 @@ def run_one(w, vh, case, name):
     d = w.sub(name)
     cp = os.path.join(d, "case.json")
     json.dump(case, open(cp, "w"))
-    lib.run([vh, "cond-one", "-case", cp, "-out", os.path.join(d, "ev.ndjson")])
+    lib.run([vh, "cond-one", "-case", cp, "-out", os.path.join(d, "ev.ndjson")], env=penv(case.get("softptr")))
     rows = lib.read_ndjson(os.path.join(d, "ev.ndjson"))
     v, _, _ = validate(w, name, rows)
     return v, rows
@@ -103,7 +111,7 @@ def check(prop, w, tier, t0):
 
         def rep(j):
             out = os.path.join(d, "obs%d.ndjson" % j)
-            lib.run([vh, "cond-replay", "-cases", cf, "-out", out, "-mode", mode, "-from", str(j * step), "-to", str(min(len(chains), (j + 1) * step))], timeout=7000)
+            lib.run([vh, "cond-replay", "-cases", cf, "-out", out, "-mode", mode, "-from", str(j * step), "-to", str(min(len(chains), (j + 1) * step))], timeout=7000, env=penv(j % 2 == 1))
             return lib.read_ndjson(out)
         with ThreadPoolExecutor(max_workers=nproc) as ex:
             for part in ex.map(rep, range(nproc)):
@@ -114,7 +122,7 @@ def check(prop, w, tier, t0):
 
     def rnd(j):
         out = os.path.join(d, "r%d.ndjson" % j)
-        lib.run([vh, "cond-random", "-out", out, "-mode", mode, "-n", str(nrand // nproc), "-seed", str(sd * 1000 + j)], timeout=7000)
+        lib.run([vh, "cond-random", "-out", out, "-mode", mode, "-n", str(nrand // nproc), "-seed", str(sd * 1000 + j)], timeout=7000, env=penv(j % 2 == 1))
         return lib.read_ndjson(out)
     with ThreadPoolExecutor(max_workers=nproc) as ex:
         for part in ex.map(rnd, range(nproc)):
